@@ -60,6 +60,30 @@ fn metered<T>(f: impl FnOnce() -> T) -> (T, usize) {
     (r, peak.saturating_sub(base))
 }
 
+// ---------------------------------------------------------------- reusable output buffers
+thread_local! {
+    static IBUF: std::cell::RefCell<Vec<i32>> = std::cell::RefCell::new(vec![0; 24000]);
+    static BBUF: std::cell::RefCell<Vec<u8>> = std::cell::RefCell::new(vec![0; 120000]);
+}
+fn with_ibuf<T>(cap: usize, f: impl FnOnce(&mut [i32]) -> T) -> T {
+    let mut v = IBUF.with(|b| std::mem::take(&mut *b.borrow_mut()));
+    if v.len() < cap {
+        v.resize(cap, 0);
+    }
+    let r = f(&mut v[..cap]);
+    IBUF.with(|b| *b.borrow_mut() = v);
+    r
+}
+fn with_bbuf<T>(cap: usize, f: impl FnOnce(&mut [u8]) -> T) -> T {
+    let mut v = BBUF.with(|b| std::mem::take(&mut *b.borrow_mut()));
+    if v.len() < cap {
+        v.resize(cap, 0);
+    }
+    let r = f(&mut v[..cap]);
+    BBUF.with(|b| *b.borrow_mut() = v);
+    r
+}
+
 // ---------------------------------------------------------------- text forms
 type ItemV = (u16, u16, Vec<i32>);
 type Table = Vec<(u16, u32)>;
@@ -246,24 +270,22 @@ impl Machine {
     }
     fn rwi(&mut self, i: usize, cap: usize) -> String {
         self.run("rwi", format!("{} {}", i, cap), move |m| {
-            let mut res = vec![0i32; cap];
             let mut scratch = std::mem::take(&mut m.scratch);
-            let r = match m.r[i].write_to_ints(&mut scratch, &mut res) {
+            let r = with_ibuf(cap, |res| match m.r[i].write_to_ints(&mut scratch, res) {
                 Ok(w) => format!("ok:{}", ints_txt(w)),
                 Err(_) => "cap".into(),
-            };
+            });
             m.scratch = scratch;
             r
         })
     }
     fn rwb(&mut self, i: usize, cap: usize) -> String {
         self.run("rwb", format!("{} {}", i, cap), move |m| {
-            let mut res = vec![0u8; cap];
             let mut scratch = std::mem::take(&mut m.scratch);
-            let r = with_packer(&mut res[..], |p| match m.r[i].write(&mut scratch, p) {
+            let r = with_bbuf(cap, |res| with_packer(&mut res[..], |p| match m.r[i].write(&mut scratch, p) {
                 Ok(w) => format!("ok:{}", hex(w)),
                 Err(_) => "cap".into(),
-            });
+            }));
             m.scratch = scratch;
             r
         })
@@ -323,21 +345,19 @@ impl Machine {
     fn dwi(&mut self, j: usize, t: &Table, cap: usize) -> String {
         let t = t.clone();
         self.run("dwi", format!("{} {} {}", j, table_txt(&t), cap), move |m| {
-            let mut res = vec![0i32; cap];
-            match m.d[j].write_to_ints(tbl_fn(&t), &mut res) {
+            with_ibuf(cap, |res| match m.d[j].write_to_ints(tbl_fn(&t), res) {
                 Ok(w) => format!("ok:{}", ints_txt(w)),
                 Err(_) => "cap".into(),
-            }
+            })
         })
     }
     fn dwb(&mut self, j: usize, t: &Table, cap: usize) -> String {
         let t = t.clone();
         self.run("dwb", format!("{} {} {}", j, table_txt(&t), cap), move |m| {
-            let mut res = vec![0u8; cap];
-            with_packer(&mut res[..], |p| match m.d[j].write(tbl_fn(&t), p) {
+            with_bbuf(cap, |res| with_packer(&mut res[..], |p| match m.d[j].write(tbl_fn(&t), p) {
                 Ok(w) => format!("ok:{}", hex(w)),
                 Err(_) => "cap".into(),
-            })
+            }))
         })
     }
     fn dri(&mut self, j: usize, t: &Table, ints: &[i32]) -> String {
@@ -404,24 +424,22 @@ impl Machine {
     }
     fn wi(&mut self, i: usize, cap: usize) -> String {
         self.run("wi", format!("{} {}", i, cap), move |m| {
-            let mut res = vec![0i32; cap];
             let mut scratch = std::mem::take(&mut m.scratch);
-            let r = match m.s[i].write_to_ints(&mut scratch, &mut res) {
+            let r = with_ibuf(cap, |res| match m.s[i].write_to_ints(&mut scratch, res) {
                 Ok(w) => format!("ok:{}", ints_txt(w)),
                 Err(_) => "cap".into(),
-            };
+            });
             m.scratch = scratch;
             r
         })
     }
     fn wb(&mut self, i: usize, cap: usize) -> String {
         self.run("wb", format!("{} {}", i, cap), move |m| {
-            let mut res = vec![0u8; cap];
             let mut scratch = std::mem::take(&mut m.scratch);
-            let r = with_packer(&mut res[..], |p| match m.s[i].write(&mut scratch, p) {
+            let r = with_bbuf(cap, |res| with_packer(&mut res[..], |p| match m.s[i].write(&mut scratch, p) {
                 Ok(w) => format!("ok:{}", hex(w)),
                 Err(_) => "cap".into(),
-            });
+            }));
             m.scratch = scratch;
             r
         })
@@ -491,33 +509,28 @@ fn sizes_respected(t: &Table, s: &RawSnap) -> bool {
 }
 fn delta_dump(d: &Delta) -> Result<Vec<i32>, String> {
     guard(|| {
-        let mut res = vec![0i32; 22000];
-        d.write_to_ints(|_| None, &mut res).map(|w| w.to_vec()).unwrap_or_default()
+        with_ibuf(22000, |res| d.write_to_ints(|_| None, res).map(|w| w.to_vec()).unwrap_or_default())
     })
 }
 fn raw_ints(s: &RawSnap) -> Option<Vec<i32>> {
-    let mut res = vec![0i32; 16384];
     let mut scratch = vec![];
-    s.write_to_ints(&mut scratch, &mut res).ok().map(|w| w.to_vec())
+    with_ibuf(16384, |res| s.write_to_ints(&mut scratch, res).ok().map(|w| w.to_vec()))
 }
 fn snap_ints(s: &Snap) -> Option<Vec<i32>> {
-    let mut res = vec![0i32; 16384];
     let mut scratch = vec![];
-    s.write_to_ints(&mut scratch, &mut res).ok().map(|w| w.to_vec())
+    with_ibuf(16384, |res| s.write_to_ints(&mut scratch, res).ok().map(|w| w.to_vec()))
 }
 fn snap_bytes(s: &Snap) -> Option<Vec<u8>> {
-    let mut res = vec![0u8; 16384 * 5];
     let mut scratch = vec![];
-    with_packer(&mut res[..], |p| s.write(&mut scratch, p).ok().map(|w| w.to_vec()))
+    with_bbuf(16384 * 5, |res| with_packer(&mut res[..], |p| s.write(&mut scratch, p).ok().map(|w| w.to_vec())))
 }
 fn pack_ints(v: &[i32]) -> Vec<u8> {
-    let mut res = vec![0u8; v.len() * 5 + 1];
-    with_packer(&mut res[..], |mut p| {
+    with_bbuf(v.len() * 5 + 1, |res| with_packer(&mut res[..], |mut p| {
         for &x in v {
             p.write_int(x).unwrap();
         }
         p.written().to_vec()
-    })
+    }))
 }
 
 // the table both sides use when the DDNet reference takes part (types < 64, sizes > 0)
@@ -598,8 +611,7 @@ fn oracle_c09(o: &mut Out, cx: &mut Ctx, id: &str, a: &[ItemV], b: &[ItemV], tbl
     let empty: Table = vec![];
     let t: &Table = if sizes_respected(tbl, &rb) { tbl } else { &empty };
     // wire round trip, both forms
-    let mut res = vec![0i32; 22000];
-    let wi = guard(|| d.write_to_ints(tbl_fn(t), &mut res).map(|w| w.to_vec()));
+    let wi = guard(|| with_ibuf(22000, |res| d.write_to_ints(tbl_fn(t), res).map(|w| w.to_vec())));
     match wi {
         Ok(Ok(ints)) => {
             let mut d2 = Delta::new();
@@ -611,8 +623,7 @@ fn oracle_c09(o: &mut Out, cx: &mut Ctx, id: &str, a: &[ItemV], b: &[ItemV], tbl
                 same(o, "apply(A, read_ints(write_ints(create(A,B))))", &d2);
             }
             let bytes = pack_ints(&ints);
-            let mut buf = vec![0u8; bytes.len() + 8];
-            let wb = guard(|| with_packer(&mut buf[..], |p| d.write(tbl_fn(t), p).map(|w| w.to_vec())));
+            let wb = guard(|| with_bbuf(bytes.len() + 8, |buf| with_packer(&mut buf[..], |p| d.write(tbl_fn(t), p).map(|w| w.to_vec()))));
             o.check(wb == Ok(Ok(bytes.clone())), "-", id, || format!("delta bytes differ from the packed ints: {:?}", wb));
             let mut d3 = Delta::new();
             let mut w = vec![];
@@ -823,7 +834,7 @@ fn gen_c09(o: &mut Out, cx: &mut Ctx, r: &mut Rng, th: bool) {
         do_pair(o, cx, &a, &b, &t, false, use_ref);
     }
     // ---- random pairs up to the limits
-    let big = if th { 400 } else { 40 };
+    let big = if th { 200 } else { 12 };
     for n in 0..big {
         let use_ref = n % 2 == 0;
         let t = if use_ref { ref_table() } else { tbl.clone() };
@@ -1204,11 +1215,11 @@ fn gen_c10(o: &mut Out, r: &mut Rng, th: bool) {
     for n in 0..(if th { 3000 } else { 300 }) {
         let n_uuid = match n % 5 { 0 => 0, 1 => 1 + r.below(3) as usize, 2 => 40, _ => r.below(41) as usize };
         let n_ops = match n % 7 { 0 => r.below(5) as usize, 1 => 40 + r.below(60) as usize, _ => r.below(40) as usize };
-        let ops = gen_ops(r, n_ops, n_uuid, n % 3 == 0);
+        let ops = gen_ops(r, n_ops, n_uuid, n % 10 == 0);
         do_build(o, &ops, false, fresh);
     }
     // up to the limits: item count, byte size, many UUID types
-    for n in 0..(if th { 40 } else { 6 }) {
+    for n in 0..(if th { 30 } else { 3 }) {
         let n_uuid = if n % 2 == 0 { 40 } else { 300 };
         let ops = match n % 3 {
             0 => gen_ops(r, 1100, n_uuid, false),
